@@ -79,7 +79,10 @@ def run_login(run, rng, pv, order, threshold, terminal, server_id, auth,
     codec = codec_for(pv)
     state = {'plugin_responses': [], 'errors': [], 'chat': [], 'obs': None}
     token = bytes(rng.getrandbits(8) for _ in range(rng.choice((4, 16))))
-    plugin_ids = {s: rng.choice((1, 7, 128, 300, 2 ** 21)) + i
+    # (message ids are signed VarInts on the wire: ids with bit 31 set - a
+    # server drawing them from a random int - must be echoed all the same)
+    plugin_ids = {s: rng.choice((1, 7, 128, 300, 2 ** 21, 2 ** 31,
+                                 2 ** 32 - 9, 2 ** 31 + 12345)) + i
                   for i, s in enumerate(x for x in order if x[0] == 'P')}
     chat_sizes = []
     chat_gate = []
